@@ -341,7 +341,11 @@ def same_outcome(i, m):
         elif ci != cm:
             return False
     if i.get("log") != m.get("log"):
-        return False
+        # a command that ran into the time limit may have been stopped before it wrote its log line (its interpreter
+        # still starting up on a busy machine): the log is then the model's without that last entry
+        li, lm = i.get("log") or [], m.get("log") or []
+        if not ("err" in ri and ri["err"] == "TimeoutExpired" and ri == rm and li == lm[:-1]):
+            return False
     if i.get("payload_after") != m.get("payload_after"):
         return False
     return True
